@@ -60,6 +60,10 @@ CHECKS = {
    technique="symbolic execution of the MIR of PrattParser/ConstPrattParser/PrattParserMap and PrecClimber with the kind of every token a symbolic selector (z3 forks on the BTreeMap/array lookups), result trees compared with a shunting-yard reference",
    text="Operator tables are built through the real Op::prefix/postfix/infix, BitOr and PrattParser::op (resp. ConstPrattParser::new_const, PrecClimber::new) code: all tables with 2 operators, 48 seeded (quick) / all (thorough) with 3, 150 seeded with 4 (thorough) - every affix and associativity per operator and every split into precedence levels. For every token sequence of 1..5 (quick) / 6 (thorough) tokens with symbolic kinds the tree built by the real parse() is compared, on each well-formed sequence, with the classical operator-precedence tree (right power p for left-associative infix, p-1 for right-associative and prefix); every token must be used exactly once in order. ConstPrattParser and (infix-only tables, one associativity per level) PrecClimber must give the same tree.",
    note="Pairs are stubs answering only as_rule(); mapping closures are host closures building a tree. BTreeMap::{insert,get}, Peekable, zip/fold summarised; no native replay for this check (pure table/recursion code). Longer sequences and larger tables are outside the claim."),
+ "C07": dict(level="other", design="§5 C07", engine="M",
+   technique="symbolic execution of the MIR of pest_meta::parser::unescape and of the checked-in meta-parser's string/character rules on symbolic text; z3 decides every branch; compared with a reference unescaper and replayed natively through a cfg-guarded hook",
+   text="Reduced form: only the literal-unescaping clause of the property. (A) For every valid UTF-8 string of 0..N bytes (N=4/5) and 15 escape templates with symbolic hex digits/escape letters, whenever the text is a well-formed escape sequence denoting scalar values the real unescape() returns exactly the denoted string. (B) For every text of 2..N+1 bytes and 10 templates that the checked-in meta-parser accepts as a whole `string` or `character` token, unescape() succeeds or the front-end reports a located error (never a panic).",
+   note="Not decided by this check: operator structure / precedence / associativity, repetition counts, PEEK indices and the round trip through arbitrary concrete spellings (would need symbolic execution of consume_rules over Pairs, see DESIGN.md §5 C07); PrattParser itself is C13. Trusted: summaries of String/Chars/take/take_while/from_str_radix (validated natively), reference unescaper."),
 }
 
 NOT_APPLICABLE = {
@@ -113,6 +117,6 @@ def main():
     jsonschema.validate(m, json.load(open("/root/.vp/MANIFEST.schema.json")))
     print("MANIFEST.json written:", len(checks), "checks,", len(na), "not_applicable")
 
-HOOK_COMMITS = ["abfe286", "411154d", "c80bb74"]
+HOOK_COMMITS = ["abfe286", "411154d", "c80bb74", "1a2cbbe"]
 if __name__ == "__main__":
     main()
